@@ -20,13 +20,30 @@
 //! verified for every 2 <= m <= N (otherwise the min_prime violation is the verdict for that N), never
 //! when the two undemanded entries `min_prime(0)`/`min_prime(1)` would make it spin, with at most
 //! `MAX_ITEMS` items taken and consumption stopped at the first wrong item.
+//!
+//! The iterator protocol (`protocol.rs`, family `factorize_consumed`): the comparisons above read the iterator
+//! `factorize(n)` hands out with `next()` only.  In a pass of its own — first, on watched threads (`guard.rs`),
+//! so that a call that does not return becomes the verdict "does not terminate" instead of a hung check — every
+//! limit is constructed as the first construction of a fresh thread, its `min_prime` table is verified, and
+//! `factorize(n)` is consumed in every std way (`fold`, `for_each`, `count`, `last`, `sum`, `product`, `min`,
+//! `max`, `reduce`, `collect` into Vec / BTreeSet / HashSet, `eq`, `nth`, `skip`, `step_by`, `take` + rest,
+//! `all`, `any`, `find`, `position`, `zip`, `chain`, `peekable`, `fuse`, `size_hint`; `rev` / `next_back` /
+//! `rfold` / `len` if `PrimeIter` implements the traits), fresh and after j `next()` calls: for every n <= N of
+//! every small limit, and for a structured family of n of the big limits.  (`primes()` returns a `&Vec<i32>`,
+//! whose iterators are std's own; the list itself is compared as a whole.)
 
+mod guard;
+mod protocol;
+
+use protocol::{describe_notes, protocol_case, N_USES, USE_NAMES};
 use rayon::prelude::*;
 use rlib_sieve::Sieve;
-use std::collections::BTreeSet;
+use std::collections::{BTreeMap, BTreeSet};
 use vcore::*;
 
 const FAMILIES: [&str; 5] = ["panic_on_new", "is_prime", "min_prime", "primes_list", "factorize"];
+/// the family of the iterator protocol (reported by its own pass, always as a first construction of a thread)
+const CONSUMED: &str = "factorize_consumed";
 const MAX_ITEMS: usize = 40;
 const CHUNK: usize = 1 << 15;
 
@@ -439,6 +456,125 @@ fn check_big_limit(limit: usize, spf: &[u32], parallel: bool) -> Outcome {
     o
 }
 
+// ───────────────────────────── the iterator protocol of factorize ─────────────────────────────
+
+/// Every way of consuming the real `factorize(n)` iterator against the reference factorisation.
+fn factorize_protocol(s: &Sieve, n: usize, expected: &[(i32, i32)], all: bool) -> protocol::Report {
+    protocol_case!(|| s.factorize(n as i32), expected, &[], all)
+}
+
+/// The n of a big limit whose factorisation is consumed in every way: every n up to `EDGE`, the last `EDGE`
+/// ones below the limit, and the smallest and the largest n <= limit of every exponent shape (the sequence of
+/// exponents in the order of the primes), read off the reference table.
+const EDGE: usize = 4096;
+
+fn big_protocol_family(limit: usize, spf: &[u32]) -> Vec<usize> {
+    let mut shapes: BTreeMap<u64, (usize, usize)> = BTreeMap::new();
+    for n in 2..=limit {
+        let (mut m, mut shape) = (n, 1u64);
+        while m > 1 {
+            let p = spf[m];
+            let mut e = 0u64;
+            while m > 1 && spf[m] == p {
+                m /= p as usize;
+                e += 1;
+            }
+            shape = (shape << 5) | (e & 31);
+        }
+        shapes.entry(shape).or_insert((n, n)).1 = n;
+    }
+    let mut v: BTreeSet<usize> = (1..=EDGE.min(limit)).chain(limit.saturating_sub(EDGE) + 1..=limit).collect();
+    v.extend(shapes.values().flat_map(|&(a, b)| [a, b]));
+    v.into_iter().collect()
+}
+
+/// What the protocol pass did on one limit.
+struct ProtoLimit {
+    limit: usize,
+    /// Some(why): factorize was not consumed on this limit — what is wrong is the verdict of another family
+    skipped: Option<&'static str>,
+    inputs: u64,
+    inputs_largest_prime_repeated: u64,
+    inputs_with_3_or_more_items: u64,
+    cases: [u64; N_USES],
+    longest: usize,
+    behind_the_end: u64,
+    traits: [bool; 3],
+    /// the first n whose iterator went wrong (consumption of this limit stops there)
+    first: Option<(usize, protocol::Failure)>,
+}
+
+/// The n of a small limit whose factorisation is consumed in every way: every n <= N for the limits up to
+/// `ALL_N_UPTO` and for the largest small limit, the last `TAIL` n (the table entries written last, at the
+/// cut-off of the marking loop) for the limits between.
+const ALL_N_UPTO: usize = 256;
+const TAIL: usize = 16;
+
+fn small_protocol_family(limit: usize, largest_small: usize) -> Vec<usize> {
+    if limit <= ALL_N_UPTO || limit == largest_small {
+        (1..=limit).collect()
+    } else {
+        (limit - TAIL + 1..=limit).collect()
+    }
+}
+
+/// One limit, constructed on the calling (fresh) thread: the table first, then every way of consuming.
+fn protocol_limit(limit: usize, refs: &Refs) -> ProtoLimit {
+    guard::allow(big_step_allowance(limit));
+    let mut o = ProtoLimit { limit, skipped: None, inputs: 0, inputs_largest_prime_repeated: 0, inputs_with_3_or_more_items: 0, cases: [0; N_USES], longest: 0, behind_the_end: 0, traits: [false; 3], first: None };
+    let s = match catch(|| Sieve::new(limit)) {
+        Ok(s) => s,
+        Err(_) => {
+            o.skipped = Some("the constructor panicked");
+            return o;
+        }
+    };
+    let small = refs.covers(limit);
+    let lpf = |n: usize| if small { refs.small.lpf[n] as i64 } else { refs.spf[n] as i64 };
+    if !catch(|| (2..=limit).all(|n| s.min_prime(n as i32) as i64 == lpf(n))).unwrap_or(false) {
+        o.skipped = Some("a min_prime entry is wrong");
+        return o;
+    }
+    if !factorize_cannot_spin(&s) {
+        o.skipped = Some("min_prime(0) = min_prime(1) >= 2");
+        return o;
+    }
+    let ns: Vec<usize> = if small { small_protocol_family(limit, refs.small.lpf.len() - 1) } else { big_protocol_family(limit, &refs.spf) };
+    let mut buf = Vec::with_capacity(16);
+    for n in ns {
+        // from here on every n is a step of its own for the watchdog, with the default limits
+        guard::checkpoint();
+        guard::note(3, n as u64);
+        let expected: &[(i32, i32)] = if small {
+            &refs.small.fact[n]
+        } else {
+            fact_from_spf(&refs.spf, n, &mut buf);
+            &buf
+        };
+        let rep = factorize_protocol(&s, n, expected, false);
+        o.inputs += 1;
+        o.inputs_largest_prime_repeated += expected.last().is_some_and(|&(_, e)| e >= 2) as u64;
+        o.inputs_with_3_or_more_items += (rep.len >= 3) as u64;
+        for (a, b) in o.cases.iter_mut().zip(rep.cases) {
+            *a += b;
+        }
+        o.longest = o.longest.max(rep.len);
+        o.behind_the_end += rep.behind_the_end;
+        for t in 0..3 {
+            o.traits[t] |= rep.traits[t];
+        }
+        if let Some(f) = rep.failures.into_iter().next() {
+            o.first = Some((n, f));
+            break;
+        }
+    }
+    o
+}
+
+fn consumed_replay(limit: usize, n: usize, refs: &Refs) -> Value {
+    json!({"family": CONSUMED, "N": limit, "n": n, "reference": if refs.covers(limit) { "trial" } else { "eratosthenes" }, "history": []})
+}
+
 // ───────────────────────────── construction histories ─────────────────────────────
 
 /// One construction on a thread.  `compare`: the full comparison (every query) is run on the sieve before
@@ -601,17 +737,35 @@ fn with_history(mut f: Fail, h: &[Step]) -> Fail {
 
 // ───────────────────────────── replay: one recorded case, no enumeration ─────────────────────────────
 
-/// The recorded history and then the recorded case, on a thread created for this call.
+/// The recorded history and then the recorded case, on a watched thread created for this call: a call that
+/// does not return is reported as such.
 fn confirm(v: &Value) -> Result<(), String> {
     let history = steps_parse(&v["history"])?;
+    let text = history_text(&history);
+    let after = move |m: String| if text.is_empty() { m } else { format!("after constructing the limits [{text}] on the same thread: {m}") };
+    let case = v.clone();
     let refs = Refs::for_steps(&history);
-    on_fresh_thread(|| {
+    let r = guard::call(move || {
         for &st in &history {
+            guard::allow(big_step_allowance(st.limit));
             exercise(st, &refs);
+            guard::checkpoint();
         }
-        confirm_case(v)
-    })
-    .map_err(|m| if history.is_empty() { m } else { format!("after constructing the limits [{}] on the same thread: {m}", history_text(&history)) })
+        confirm_case(&case)
+    });
+    match r {
+        Ok(r) => r.map_err(after),
+        Err(h) => {
+            let what = format!("Sieve::new({}): {}({})", v["N"], v["family"].as_str().unwrap_or("?").trim_end_matches("_consumed"), v["n"]);
+            Err(after(if v["family"] == CONSUMED { format!("{what}: {}: {}", describe_notes(h.notes).2, h.text()) } else { format!("{what}: {}", h.text()) }))
+        }
+    }
+}
+
+/// Processor seconds a watched thread may spend on constructing (and, in a history, fully comparing) one
+/// sieve of that limit: the default for the small limits, 5 microseconds per table entry on top.
+fn big_step_allowance(limit: usize) -> f64 {
+    guard::CPU_LIMIT_S + limit as f64 * 5e-6
 }
 
 /// One construction and one comparison on the current thread.
@@ -619,21 +773,25 @@ fn confirm_case(v: &Value) -> Result<(), String> {
     let family = v["family"].as_str().ok_or("replay: no family")?.to_string();
     let limit = v["N"].as_u64().ok_or("replay: no N")? as usize;
     let wrap = |m: String| format!("Sieve::new({limit}): {m}");
+    guard::allow(big_step_allowance(limit));
     let s = match catch(|| Sieve::new(limit)) {
         Ok(s) => s,
         Err(p) => return Err(wrap(format!("constructor panicked: {p}"))),
     };
+    guard::checkpoint();
     if family == "panic_on_new" {
         return Ok(());
     }
     if family == "primes_list" {
         // whole list against the reference that found it (trial division for small limits)
+        guard::allow(big_step_allowance(limit));
         let expected: Vec<i32> = if v["reference"] == "trial" {
             (2..=limit as u64).filter(|&n| lpf_trial(n) == n).map(|n| n as i32).collect()
         } else {
             let spf = spf_eratosthenes(limit);
             (2..=limit).filter(|&n| spf[n] as usize == n).map(|n| n as i32).collect()
         };
+        guard::checkpoint();
         return check_primes_list(&s, &expected).map_err(|(_, m)| wrap(m));
     }
     let n = v["n"].as_u64().ok_or("replay: no n")? as usize;
@@ -645,7 +803,7 @@ fn confirm_case(v: &Value) -> Result<(), String> {
             }
             check_min_prime(&s, n, lpf_trial(n as u64)).map_err(wrap)
         }
-        "factorize" => {
+        "factorize" | CONSUMED => {
             if n < 1 {
                 return Err("replay: factorize is only constrained for n >= 1".into());
             }
@@ -669,6 +827,14 @@ fn confirm_case(v: &Value) -> Result<(), String> {
                 return Err(wrap(format!(
                     "factorize({n}) not executed: min_prime(0) = min_prime(1) >= 2, the division loop could run forever"
                 )));
+            }
+            if family == CONSUMED {
+                guard::note(3, n as u64);
+                let rep = factorize_protocol(&s, n, &factor_trial(n as u64), true);
+                return match rep.failures.first() {
+                    None => Ok(()),
+                    Some(f) => Err(wrap(format!("factorize({n}): {}{}", f.message, rep.others()))),
+                };
             }
             check_factorize(&s, n, &factor_trial(n as u64)).map_err(wrap)
         }
@@ -747,9 +913,91 @@ fn main() {
     }
 
     let big_list: Vec<usize> = bigs.iter().map(|b| b.0).collect();
-    let refs = Refs { small: sref, spf };
+    // the references live as long as the process: watched worker threads that may be abandoned read them
+    let refs: &'static Refs = Box::leak(Box::new(Refs { small: sref, spf }));
     let (sref, spf) = (&refs.small, &refs.spf);
     let scheds = schedules(max_small, &big_list);
+
+    // ── the iterator protocol of factorize: first, on watched threads, every limit a first construction ──
+    let (watchdog_self_test_s, watchdog_clock) = guard::self_test();
+    if let Err(m) = protocol::self_check() {
+        run.machinery_failure(&format!("iterator protocol self-check: {m}"));
+    }
+    // the quick tier consumes the iterators of the smallest big limit only (one job builds a big table and
+    // scans it for the exponent shapes on a single thread; the biggest limit would be the whole pass's tail)
+    let proto_bigs: Vec<usize> = big_list.iter().copied().take(args.tier.pick(1, big_list.len())).collect();
+    let proto_limits: Vec<usize> = (0..=max_small).chain(proto_bigs.iter().copied()).collect();
+    let pl = proto_limits.clone();
+    let (proto, proto_hang) = guard::map(proto_limits.len(), 1, true, move |idx| protocol_limit(pl[idx], refs)).completed();
+    let mut proto_cases = [0u64; N_USES];
+    let (mut proto_inputs, mut proto_top_repeated, mut proto_3plus, mut proto_behind, mut proto_longest, mut proto_failing_limits) = (0u64, 0u64, 0u64, 0u64, 0usize, 0u64);
+    let mut proto_traits = [false; 3];
+    let mut proto_skipped: Vec<(usize, &str)> = vec![];
+    let mut proto_big_inputs = serde_json::Map::new();
+    let mut proto_first: Option<Violation> = None;
+    for o in &proto {
+        if let Some(why) = o.skipped {
+            proto_skipped.push((o.limit, why));
+        }
+        proto_inputs += o.inputs;
+        proto_top_repeated += o.inputs_largest_prime_repeated;
+        proto_3plus += o.inputs_with_3_or_more_items;
+        proto_behind += o.behind_the_end;
+        proto_longest = proto_longest.max(o.longest);
+        for (a, b) in proto_cases.iter_mut().zip(o.cases) {
+            *a += b;
+        }
+        for t in 0..3 {
+            proto_traits[t] |= o.traits[t];
+        }
+        if o.limit > max_small {
+            proto_big_inputs.insert(o.limit.to_string(), json!(o.inputs));
+        }
+        if let Some((n, f)) = &o.first {
+            proto_failing_limits += 1;
+            proto_first.get_or_insert_with(|| {
+                Violation::new(
+                    format!("{CONSUMED}:N={},n={n}:pre={}:{}", o.limit, f.pre, f.short),
+                    format!("Sieve::new({}): factorize({n}): {}", o.limit, f.message),
+                    consumed_replay(o.limit, *n, refs),
+                )
+            });
+        }
+    }
+    if let Some(mut v) = proto_first {
+        v.summary = format!("{} [{proto_failing_limits} limits with a failing n in the protocol pass]", v.summary);
+        run.violation(v);
+    }
+    let proto_total: u64 = proto_cases.iter().sum();
+    if let Some(h) = &proto_hang {
+        let (limit, n) = (proto_limits[h.index], h.notes[3] as usize);
+        let (short, pre, long) = describe_notes(h.notes);
+        let what = if n == 0 { format!("Sieve::new({limit}) or the reading of its min_prime table") } else { format!("Sieve::new({limit}): factorize({n}): {long}") };
+        let sig = if n == 0 { format!("{CONSUMED}:N={limit}:construction") } else { format!("{CONSUMED}:N={limit},n={n}:pre={pre}:{short}") };
+        // a construction that does not return is replayed as the constructor's own family
+        let replay = if n == 0 { json!({"family": "panic_on_new", "N": limit, "n": Value::Null, "reference": "trial", "history": []}) } else { consumed_replay(limit, n, refs) };
+        run.violation(Violation::new(sig, format!("{what}: {}", h.text()), replay));
+        run.cov("evaluations", proto_total);
+        run.cov("distinct_nontrivial", 0u64);
+        run.cov("exhaustive", false);
+        run.cov("rule", format!("the enumeration was abandoned at a call into the crate that does not return ({what}); what it had found until then is reported, nothing is claimed about the rest"));
+        run.sample(json!({"abandoned at": what}));
+        run.finish(&confirm);
+    }
+    let proto_per: serde_json::Map<String, Value> = USE_NAMES.iter().zip(proto_cases).filter(|(_, c)| *c > 0).map(|(u, c)| (u.to_string(), json!(c))).collect();
+    run.cov(
+        "iterator_protocol_factorize",
+        json!({
+            "limits": proto.len(), "limits_skipped_because_the_table_is_another_family_s_verdict": proto_skipped.len(),
+            "inputs_N_n": proto_inputs, "inputs_of_the_big_limits": proto_big_inputs, "inputs_whose_largest_prime_is_repeated": proto_top_repeated,
+            "inputs_with_3_or_more_items": proto_3plus, "longest_sequence": proto_longest, "cases": proto_total, "cases_per_way_of_consuming": proto_per,
+            "cases_aiming_behind_the_end": proto_behind, "limits_with_a_failing_n": proto_failing_limits,
+            "PrimeIter_shows_DoubleEnded_ExactSize_Fused": proto_traits, "ways_of_consuming": USE_NAMES,
+            "watchdog": {"clock": watchdog_clock, "processor_seconds_allowed_per_step": guard::CPU_LIMIT_S, "extra_processor_seconds_per_table_entry_for_a_construction": 5e-6,
+                         "wall_seconds_allowed_per_step": guard::WALL_LIMIT_S, "self_test": "a spinning call was reported, a returning call and a 64-index map were not",
+                         "self_test_s": (watchdog_self_test_s * 1000.0).round() / 1000.0},
+        }),
+    );
 
     // Every construction below happens on a thread created for it, so what that thread constructed before is
     // known exactly: nothing (solo) or the schedule's prefix.  The four schedule threads run alongside the
@@ -861,13 +1109,14 @@ fn main() {
     }
     let limits_with_failure = outcomes.iter().chain(&big_outcomes).filter(|o| !o.fails.is_empty()).count() as u64 + sched_limits_with_failure;
 
-    run.cov("evaluations", total.evaluations());
+    run.cov("evaluations", total.evaluations() + proto_total);
     run.cov("distinct_nontrivial", lim_prime + lim_sq + lim_pq);
     let max_small_m1 = max_small - 1;
     run.cov(
         "rule",
         format!(
-            "every limit N in 0..={max_small} (each a fresh Sieve::new(N)) x every n in 0..=N: is_prime(n); min_prime(n) for n>=2; factorize(n) for n>=1; primes() whole list — against trial division; plus every N in {big_list:?} element by element (is_prime, min_prime, factorize for every n<=N, primes()) against a plain Eratosthenes sieve. The constructor is not assumed pure: every construction happens on a dedicated thread whose construction history is part of the case. Pass 'solo': each limit (small and big) is the first construction of a thread created for it. Then four schedules, each executed from start to end on one fresh thread with the full comparison after every construction and the sieve dropped before the next: 'ascending' 0..={max_small}; 'descending' {max_small}..=0; 'big_first' (Sieve::new({big}) constructed and dropped, then the other big limits in descending order, then 0..={max_small}); 'alternating' 0,{max_small},1,{max_small_m1},… . So every small limit is compared 5 times: as a first construction, right after N-1, right after N+1, after a big limit, and after a distant smaller/larger one. A failure is reported with the shortest history that reproduces it on a fresh thread (tried in this order: none; N+1 constructed and dropped; the recorded predecessor; the largest limit constructed and dropped; the whole recorded prefix), the replay re-executes that history on a fresh thread. The whole enumeration is run a second time in a build with debug assertions and integer overflow checks (an overflow panic on an in-domain n is a violation there). evaluations = calls of the real code compared with the reference (constructor + is_prime + min_prime + primes() + factorize calls). distinct_nontrivial = number of distinct small limits N, built and compared, whose last table entry N is a prime, a prime square p^2 or a product p*q of two distinct primes (classified by the trial-division reference): the limits where the last outer iteration appends a prime, or where the last composite is written at the very edge of the table by the cut-off `prime*i >= len`"
+            "every limit N in 0..={max_small} (each a fresh Sieve::new(N)) x every n in 0..=N: is_prime(n); min_prime(n) for n>=2; factorize(n) for n>=1; primes() whole list — against trial division; plus every N in {big_list:?} element by element (is_prime, min_prime, factorize for every n<=N, primes()) against a plain Eratosthenes sieve. The constructor is not assumed pure: every construction happens on a dedicated thread whose construction history is part of the case. Pass 'solo': each limit (small and big) is the first construction of a thread created for it. Then four schedules, each executed from start to end on one fresh thread with the full comparison after every construction and the sieve dropped before the next: 'ascending' 0..={max_small}; 'descending' {max_small}..=0; 'big_first' (Sieve::new({big}) constructed and dropped, then the other big limits in descending order, then 0..={max_small}); 'alternating' 0,{max_small},1,{max_small_m1},… . So every small limit is compared 5 times: as a first construction, right after N-1, right after N+1, after a big limit, and after a distant smaller/larger one. A failure is reported with the shortest history that reproduces it on a fresh thread (tried in this order: none; N+1 constructed and dropped; the recorded predecessor; the largest limit constructed and dropped; the whole recorded prefix), the replay re-executes that history on a fresh thread. The whole enumeration is run a second time in a build with debug assertions and integer overflow checks (an overflow panic on an in-domain n is a violation there). evaluations = calls of the real code compared with the reference (constructor + is_prime + min_prime + primes() + factorize calls). distinct_nontrivial = number of distinct small limits N, built and compared, whose last table entry N is a prime, a prime square p^2 or a product p*q of two distinct primes (classified by the trial-division reference): the limits where the last outer iteration appends a prime, or where the last composite is written at the very edge of the table by the cut-off `prime*i >= len`. ITERATOR PROTOCOL of factorize (family factorize_consumed; run first, on watched threads; its cases are counted in evaluations): the comparisons above read the iterator factorize(n) hands out with next() only; an iterator type can override any provided method of Iterator (fold, nth, count, last, size_hint, ...) and std's adaptors are built on those, so for every limit (each the first construction of a fresh thread, its min_prime table verified first) factorize(n) is consumed in every std way and each observation list must equal the one the plain Vec iterator over the reference factorisation gives: next() to the end with size_hint() bounds before every call and three calls behind the first None (which may only yield items of the factorisation); fold, for_each, count, last, sum and product (into a harness type, order-sensitive digest), min, max, reduce, collect into Vec / BTreeSet / HashSet, eq, zip, chain().fold, peekable, fuse; nth(k) [+ size_hint after it], skip(k) pulled and skip(k).fold, by_ref().take(k) then the rest, all / any / find / position of the item k ahead (then next()), step_by(1,2,3,5) — each on a fresh iterator and after j next() calls, for every pair j <= j+k <= length+1 (a factorisation has at most 8 items); every way stops at the first None it is handed; rev / next_back / rfold / nth_back and len() are compared too if PrimeIter implements DoubleEndedIterator / ExactSizeIterator. Protocol inputs (N, n): every n in 1..=N for every limit N <= {ALL_N_UPTO} and for N = {max_small}; the last {TAIL} n for the limits between (the table entries written last); for each big limit in {proto_bigs:?} every n <= {EDGE}, the last {EDGE} n, and the smallest and the largest n <= N of every exponent shape (sequence of exponents in the order of the primes) — so every shape, with the largest prime repeated or not, occurs. WATCHDOG: a call of the protocol pass or of a replay that uses more than {cpu} s of its own processor time (constructions: plus 5 microseconds per table entry; or {wall} s of wall time) without returning is reported as a violation 'does not terminate' for the smallest such limit, the rest of the enumeration is abandoned, and the replay reports the same"
+            , cpu = guard::CPU_LIMIT_S, wall = guard::WALL_LIMIT_S
         ),
     );
     run.cov("exhaustive", true);
@@ -914,11 +1163,20 @@ fn main() {
     for &limit in &[1usize, 4, 9 + rot, 120 + rot, max_small - rot] {
         run.sample(observed_sample(limit, &[0, 1, 2, limit.saturating_sub(1), limit]));
     }
+    run.assume("the iterator protocol of factorize is run on the (N, n) family stated in `rule` and in the solo setting only (first construction of a fresh thread), not after the construction schedules");
+    run.assume("a call into the crate that never returns cannot be told from a very slow one without a clock: the watchdog's verdict 'does not terminate' means 'used more than the stated processor time of its own thread (per-thread clock of the kernel, so machine load does not count)'; the passes that read factorize with next() only are not watched — they run after the protocol pass has consumed the same iterators under the watchdog");
     run.assume("state of the code under test that is shared between threads (process-wide statics) is not modelled: a construction's history is what its own thread constructed before");
     run.sample(observed_sample(big, &[1, 2, 720_720 + rot, 999_983, 1 << 19, 9_699_690, 1 << 23, big - 1, big]));
 
     // a table that could make factorize spin was never exercised: no verdict possible on that clause
     if !run.has_violations() {
+        if let Some((limit, why)) = proto_skipped.first() {
+            run.machinery_failure(&format!("the protocol pass did not consume factorize for limit {limit} ({why}) although no other family reports a violation"));
+        }
+        let want_inputs: u64 = (0..=max_small).map(|l| small_protocol_family(l, max_small).len() as u64).sum::<u64>() + proto_big_inputs.values().filter_map(|v| v.as_u64()).sum::<u64>();
+        if proto.len() != max_small + 1 + proto_bigs.len() || proto_inputs != want_inputs || proto_cases[..protocol::ORD_BACK].iter().any(|&c| c == 0) || proto_behind == 0 || proto_top_repeated < 100 || proto_longest < 7 || proto_big_inputs.values().any(|v| v.as_u64().unwrap_or(0) < 2 * EDGE as u64) {
+            run.machinery_failure("the protocol pass of factorize is vacuous or incomplete");
+        }
         if total.factorize_skipped_table_could_spin > 0 {
             run.machinery_failure("min_prime(0) = min_prime(1) >= 2 for some limit: factorize could not be executed safely, no verdict");
         }
